@@ -1,6 +1,11 @@
 /-
   SSJ.Proofs.Suffix — the suffix filter (`filter/suffix_filter.py`) never drops a pair whose
   overlap reaches the required overlap (C04 for SuffixFilter).
+  §1–6: the estimator on duplicate-free (strictly ascending) lists, `suffixFilterSuffix_safe`.
+  §6b: `_number_repeated_tokens` (`numberRepeated`, the repair of finding F8, commit 113c284): on ascending lists WITH
+  repetitions the numbered lists are strictly ascending sets with the bag overlap; `suffixFilterSuffix_numbered_safe`,
+  `suffixFilterSuffixN_safe_bag` (EDIT_DISTANCE, bags), `suffixFilterSuffixN_safe` (duplicate-free lists, any measure).
+  §7–8: `filter_pair`, `_filter_tables_split` (which call `suffixFilterSuffixN`).
 -/
 import SSJ.Model.Filters
 import SSJ.Proofs.TokenOrdering
@@ -8,6 +13,7 @@ import SSJ.Proofs.Position
 import Mathlib.Data.List.Basic
 import Mathlib.Data.List.GetD
 import Mathlib.Data.List.Nodup
+import Mathlib.Data.List.Count
 import Mathlib.Data.List.Perm.Subperm
 import Mathlib.Tactic.Linarith
 import Mathlib.Tactic.Ring
@@ -817,6 +823,379 @@ theorem suffixFilterSuffix_orderUsing (f : FilterObj) (a b : List Tok) (ord : Li
   rw [hla, hlb] at this
   exact this
 
+/-! ### 6b. `_number_repeated_tokens`: bags become sets -/
+
+theorem enc_div {b k : Nat} (t : Nat) (hk : k < b) : (t * b + k) / b = t := by
+  rw [Nat.add_comm, Nat.add_mul_div_right _ _ (by omega), Nat.div_eq_of_lt hk, Nat.zero_add]
+
+theorem enc_mod {b k : Nat} (t : Nat) (hk : k < b) : (t * b + k) % b = k := by
+  rw [Nat.add_comm, Nat.add_mul_mod_self_right, Nat.mod_eq_of_lt hk]
+
+theorem enc_eq_iff {b k : Nat} (t e : Nat) (hk : k < b) : e = t * b + k ↔ e / b = t ∧ e % b = k := by
+  constructor
+  · rintro rfl; exact ⟨enc_div t hk, enc_mod t hk⟩
+  · rintro ⟨rfl, rfl⟩
+    have := Nat.div_add_mod e b
+    rw [Nat.mul_comm] at this
+    omega
+
+theorem numberRepeatedAux_length (b : Nat) (l : List Nat) :
+    ∀ (prev : Option Nat) (occ : Nat), (numberRepeatedAux b prev occ l).length = l.length := by
+  induction l with
+  | nil => intro _ _; rfl
+  | cons t l ih => intro prev occ; simp only [numberRepeatedAux, List.length_cons, ih]
+
+theorem numberRepeated_length (b : Nat) (l : List Nat) : (numberRepeated b l).length = l.length :=
+  numberRepeatedAux_length b l none 0
+
+theorem numberRepeatedAux_take (b : Nat) (l : List Nat) :
+    ∀ (prev : Option Nat) (occ p : Nat),
+      (numberRepeatedAux b prev occ l).take p = numberRepeatedAux b prev occ (l.take p) := by
+  induction l with
+  | nil => intro _ _ p; simp [numberRepeatedAux]
+  | cons t l ih =>
+    intro prev occ p
+    cases p with
+    | zero => simp [numberRepeatedAux]
+    | succ p => simp only [numberRepeatedAux, List.take_succ_cons, ih]
+
+theorem numberRepeated_take (b : Nat) (l : List Nat) (p : Nat) :
+    (numberRepeated b l).take p = numberRepeated b (l.take p) :=
+  numberRepeatedAux_take b l none 0 p
+
+/-- the invariant of the numbering loop: after the token `t0` with occurrence number `occ`, on an ascending rest `l`
+    of tokens `≥ t0` -/
+theorem numberRepeatedAux_spec (b : Nat) (l : List Nat) (hl : l.Pairwise (· ≤ ·)) :
+    ∀ (t0 occ : Nat), (∀ u ∈ l, t0 ≤ u) → occ + l.length < b →
+      (numberRepeatedAux b (some t0) occ l).Pairwise (· < ·) ∧
+      (∀ e ∈ numberRepeatedAux b (some t0) occ l, t0 * b + occ < e) ∧
+      (∀ e, e ∈ numberRepeatedAux b (some t0) occ l ↔
+        ((e / b = t0 ∧ occ < e % b ∧ e % b ≤ occ + l.count t0) ∨ (e / b ≠ t0 ∧ e % b < l.count (e / b)))) := by
+  induction l with
+  | nil =>
+    intro t0 occ _ _
+    refine ⟨List.Pairwise.nil, by simp [numberRepeatedAux], fun e => ?_⟩
+    simp only [numberRepeatedAux, List.not_mem_nil, List.count_nil, false_iff]
+    omega
+  | cons t l ih =>
+    intro t0 occ hge hb
+    have hl' := List.pairwise_cons.1 hl
+    simp only [List.length_cons] at hb
+    have ht0 : t0 ≤ t := hge t (by simp)
+    by_cases htt : t = t0
+    · subst htt
+      obtain ⟨i1, i2, i3⟩ := ih hl'.2 t (occ + 1) hl'.1 (by omega)
+      have e1 : numberRepeatedAux b (some t) occ (t :: l) =
+          (t * b + (occ + 1)) :: numberRepeatedAux b (some t) (occ + 1) l := by
+        simp [numberRepeatedAux]
+      rw [e1]
+      refine ⟨List.pairwise_cons.2 ⟨fun e he => i2 e he, i1⟩, ?_, fun e => ?_⟩
+      · intro e he
+        rcases List.mem_cons.1 he with rfl | he
+        · omega
+        · have := i2 e he; omega
+      · rw [List.mem_cons, i3 e, enc_eq_iff t e (show occ + 1 < b by omega), List.count_cons_self]
+        by_cases hd : e / b = t
+        · simp only [hd, true_and, ne_eq, not_true_eq_false, false_and, or_false]; omega
+        · simp only [hd, false_and, ne_eq, not_false_eq_true, true_and, false_or,
+            List.count_cons_of_ne (Ne.symm hd)]
+    · have hlt : t0 < t := lt_of_le_of_ne ht0 (Ne.symm htt)
+      obtain ⟨i1, i2, i3⟩ := ih hl'.2 t 0 hl'.1 (by omega)
+      have e1 : numberRepeatedAux b (some t0) occ (t :: l) =
+          (t * b + 0) :: numberRepeatedAux b (some t) 0 l := by
+        have : ¬ (t0 = t) := fun h => htt h.symm
+        simp [numberRepeatedAux, this]
+      rw [e1]
+      have hbig : t0 * b + occ < t * b + 0 := by
+        have : (t0 + 1) * b ≤ t * b := Nat.mul_le_mul_right b hlt
+        rw [Nat.add_mul] at this
+        omega
+      have hc0 : l.count t0 = 0 := by
+        rw [List.count_eq_zero]
+        intro h
+        have := hl'.1 t0 h
+        omega
+      refine ⟨List.pairwise_cons.2 ⟨fun e he => i2 e he, i1⟩, ?_, fun e => ?_⟩
+      · intro e he
+        rcases List.mem_cons.1 he with rfl | he
+        · exact hbig
+        · have := i2 e he; omega
+      · rw [List.mem_cons, i3 e, enc_eq_iff t e (show 0 < b by omega),
+          List.count_cons_of_ne (show t ≠ t0 from htt), hc0]
+        by_cases hd : e / b = t
+        · have hne : e / b ≠ t0 := by omega
+          simp only [hd, true_and, ne_eq, not_true_eq_false, false_and, or_false, List.count_cons_self]
+          have : ¬ t = t0 := htt
+          simp only [this, false_and, not_false_eq_true, true_and, false_or]
+          omega
+        · simp only [hd, false_and, ne_eq, not_false_eq_true, true_and, false_or,
+            List.count_cons_of_ne (Ne.symm hd)]
+          constructor
+          · intro h
+            refine Or.inr ⟨?_, h⟩
+            intro hd0
+            have hpos : 0 < l.count (e / b) := by omega
+            have hm := List.count_pos_iff.1 hpos
+            have := hl'.1 _ hm
+            omega
+          · rintro (h | h)
+            · omega
+            · exact h.2
+
+/-- SPECIFICATION of `_number_repeated_tokens` on an ascending list of fewer than `b` tokens: the result is strictly
+    ascending and contains exactly the codes `t·b + k` of the pairs `(t, k)` with `k <` the multiplicity of `t` -/
+theorem numberRepeated_spec (b : Nat) (l : List Nat) (hl : l.Pairwise (· ≤ ·)) (hb : l.length < b) :
+    (numberRepeated b l).Pairwise (· < ·) ∧ ∀ e, e ∈ numberRepeated b l ↔ e % b < l.count (e / b) := by
+  cases l with
+  | nil => exact ⟨List.Pairwise.nil, fun e => by simp [numberRepeated, numberRepeatedAux]⟩
+  | cons t l =>
+    have hl' := List.pairwise_cons.1 hl
+    simp only [List.length_cons] at hb
+    obtain ⟨i1, i2, i3⟩ := numberRepeatedAux_spec b l hl'.2 t 0 hl'.1 (by omega)
+    have e1 : numberRepeated b (t :: l) = (t * b + 0) :: numberRepeatedAux b (some t) 0 l := by
+      simp [numberRepeated, numberRepeatedAux]
+    rw [e1]
+    refine ⟨List.pairwise_cons.2 ⟨fun e he => i2 e he, i1⟩, fun e => ?_⟩
+    rw [List.mem_cons, i3 e, enc_eq_iff t e (show 0 < b by omega)]
+    by_cases hd : e / b = t
+    · simp only [hd, true_and, ne_eq, not_true_eq_false, false_and, or_false, List.count_cons_self]; omega
+    · simp only [hd, false_and, ne_eq, not_false_eq_true, true_and, false_or,
+        List.count_cons_of_ne (Ne.symm hd)]
+
+theorem numberRepeated_sorted (b : Nat) (l : List Nat) (hl : l.Pairwise (· ≤ ·)) (hb : l.length < b) :
+    (numberRepeated b l).Pairwise (· < ·) := (numberRepeated_spec b l hl hb).1
+
+theorem mem_numberRepeated (b : Nat) (l : List Nat) (hl : l.Pairwise (· ≤ ·)) (hb : l.length < b) (e : Nat) :
+    e ∈ numberRepeated b l ↔ e % b < l.count (e / b) := (numberRepeated_spec b l hl hb).2 e
+
+/-- the tail of a numbered list: the pairs `(t, k)` whose occurrence number is not used up by the first `p` tokens -/
+theorem mem_drop_numberRepeated (b : Nat) (x : List Nat) (hx : x.Pairwise (· ≤ ·)) (hb : x.length < b) (p e : Nat) :
+    e ∈ (numberRepeated b x).drop p ↔ (x.take p).count (e / b) ≤ e % b ∧ e % b < x.count (e / b) := by
+  have hnd := (numberRepeated_sorted b x hx hb).nodup
+  have hT : ∀ e, e ∈ (numberRepeated b x).take p ↔ e % b < (x.take p).count (e / b) := by
+    intro e
+    rw [numberRepeated_take]
+    exact mem_numberRepeated b _ (hx.sublist (List.take_sublist p x))
+      (lt_of_le_of_lt (List.take_sublist p x).length_le hb) e
+  have hM := mem_numberRepeated b x hx hb e
+  constructor
+  · intro h
+    have h1 : e ∈ numberRepeated b x := List.mem_of_mem_drop h
+    have h2 : e ∉ (numberRepeated b x).take p := fun ht =>
+      (List.disjoint_take_drop hnd (le_refl p)) ht h
+    rw [hT] at h2
+    exact ⟨by omega, hM.1 h1⟩
+  · rintro ⟨h1, h2⟩
+    have hm : e ∈ (numberRepeated b x).take p ++ (numberRepeated b x).drop p := by
+      rw [List.take_append_drop]; exact hM.2 h2
+    rcases List.mem_append.1 hm with h | h
+    · have := (hT e).1 h; omega
+    · exact h
+
+theorem count_take_add_drop (x : List Nat) (p t : Nat) : (x.take p).count t + (x.drop p).count t = x.count t := by
+  conv_rhs => rw [← List.take_append_drop p x]
+  rw [List.count_append]
+
+/-- cardinality by an injection: a duplicate-free list which `g` maps injectively into `D` is no longer than `D` -/
+theorem length_le_of_injOn (A D : List Nat) (g : Nat → Nat) (hA : A.Nodup)
+    (hinj : ∀ e1 ∈ A, ∀ e2 ∈ A, g e1 = g e2 → e1 = e2) (hmem : ∀ e ∈ A, g e ∈ D) : A.length ≤ D.length := by
+  have h1 : (A.map g).Nodup := hA.map_on hinj
+  have h2 : A.map g ⊆ D := by
+    intro v hv
+    obtain ⟨e, he, rfl⟩ := List.mem_map.1 hv
+    exact hmem e he
+  have := (List.subperm_of_subset h1 h2).length_le
+  rwa [List.length_map] at this
+
+theorem div_mod_ext {b e1 e2 : Nat} (h1 : e1 / b = e2 / b) (h2 : e1 % b = e2 % b) : e1 = e2 := by
+  have a1 := Nat.div_add_mod e1 b
+  have a2 := Nat.div_add_mod e2 b
+  rw [h1, h2] at a1
+  omega
+
+/-- numbered elements of `x` missing from the numbered `y`: at most the bag difference `x − y` -/
+theorem numbered_not_mem_le_diff (b : Nat) (x y : List Nat) (hx : x.Pairwise (· ≤ ·)) (hy : y.Pairwise (· ≤ ·))
+    (hxb : x.length < b) (hyb : y.length < b) :
+    ((numberRepeated b x).filter (fun e => decide (e ∉ numberRepeated b y))).length ≤ (x.diff y).length := by
+  have hds : (x.diff y).Pairwise (· ≤ ·) := hx.sublist (List.diff_sublist _ _)
+  have hdl : (x.diff y).length < b := lt_of_le_of_lt (List.diff_sublist _ _).length_le hxb
+  rw [← numberRepeated_length b (x.diff y)]
+  have hcnt : ∀ t, x.count t ≤ x.length := fun t => List.count_le_length
+  apply length_le_of_injOn _ _ (fun e => (e / b) * b + (e % b - y.count (e / b)))
+    ((numberRepeated_sorted b x hx hxb).nodup.filter _)
+  · intro e1 he1 e2 he2 hg
+    simp only [List.mem_filter, decide_eq_true_eq, mem_numberRepeated b x hx hxb,
+      mem_numberRepeated b y hy hyb] at he1 he2
+    have k1 : e1 % b - y.count (e1 / b) < b := by have := hcnt (e1 / b); omega
+    have k2 : e2 % b - y.count (e2 / b) < b := by have := hcnt (e2 / b); omega
+    have d1 := congrArg (· / b) hg
+    have m1 := congrArg (· % b) hg
+    simp only [enc_div _ k1, enc_div _ k2, enc_mod _ k1, enc_mod _ k2] at d1 m1
+    apply div_mod_ext d1
+    rw [d1] at m1 he1
+    omega
+  · intro e he
+    simp only [List.mem_filter, decide_eq_true_eq, mem_numberRepeated b x hx hxb,
+      mem_numberRepeated b y hy hyb] at he
+    have k1 : e % b - y.count (e / b) < b := by have := hcnt (e / b); omega
+    rw [mem_numberRepeated b _ hds hdl, enc_div _ k1, enc_mod _ k1, List.count_diff]
+    omega
+
+/-- hence the numbered lists have at least `|x| − |x − y|` common elements -/
+theorem commonCount_numbered_ge (b : Nat) (x y : List Nat) (hx : x.Pairwise (· ≤ ·)) (hy : y.Pairwise (· ≤ ·))
+    (hxb : x.length < b) (hyb : y.length < b) :
+    x.length ≤ commonCount (numberRepeated b x) (numberRepeated b y) + (x.diff y).length := by
+  have h1 := length_filter_mem_add (numberRepeated b x) (numberRepeated b y)
+  have h2 := numbered_not_mem_le_diff b x y hx hy hxb hyb
+  rw [numberRepeated_length] at h1
+  omega
+
+/-- numbering the suffixes afresh keeps at least the common elements which the suffixes of the fully numbered lists
+    have: per token the occurrence numbers `[a_p, a_p + a_s)` and `[c_p, c_p + c_s)` share at most `min(a_s, c_s)` values -/
+theorem commonCount_drop_numbered_le (B b : Nat) (x y : List Nat) (hx : x.Pairwise (· ≤ ·)) (hy : y.Pairwise (· ≤ ·))
+    (hxB : x.length < B) (hyB : y.length < B) (p q : Nat)
+    (hb : (x.drop p).length + (y.drop q).length < b) :
+    commonCount ((numberRepeated B x).drop p) ((numberRepeated B y).drop q) ≤
+      commonCount (numberRepeated b (x.drop p)) (numberRepeated b (y.drop q)) := by
+  have hxs : (x.drop p).Pairwise (· ≤ ·) := hx.sublist (List.drop_sublist _ _)
+  have hys : (y.drop q).Pairwise (· ≤ ·) := hy.sublist (List.drop_sublist _ _)
+  have hxsb : (x.drop p).length < b := by omega
+  have hysb : (y.drop q).length < b := by omega
+  have hcx : ∀ t, (x.drop p).count t ≤ (x.drop p).length := fun t => List.count_le_length
+  have hA : (((numberRepeated B x).drop p).filter
+      (fun e => decide (e ∈ (numberRepeated B y).drop q))).Nodup :=
+    (((numberRepeated_sorted B x hx hxB).nodup.sublist (List.drop_sublist _ _))).filter _
+  unfold commonCount
+  apply length_le_of_injOn _ _
+    (fun e => (e / B) * b + (e % B - max ((x.take p).count (e / B)) ((y.take q).count (e / B)))) hA
+  · intro e1 he1 e2 he2 hg
+    simp only [List.mem_filter, decide_eq_true_eq, mem_drop_numberRepeated B x hx hxB,
+      mem_drop_numberRepeated B y hy hyB] at he1 he2
+    have c1 := count_take_add_drop x p (e1 / B)
+    have c2 := count_take_add_drop x p (e2 / B)
+    have k1 : e1 % B - max ((x.take p).count (e1 / B)) ((y.take q).count (e1 / B)) < b := by
+      have := hcx (e1 / B); omega
+    have k2 : e2 % B - max ((x.take p).count (e2 / B)) ((y.take q).count (e2 / B)) < b := by
+      have := hcx (e2 / B); omega
+    have d1 := congrArg (· / b) hg
+    have m1 := congrArg (· % b) hg
+    simp only [enc_div _ k1, enc_div _ k2, enc_mod _ k1, enc_mod _ k2] at d1 m1
+    apply div_mod_ext d1
+    rw [d1] at m1 he1
+    omega
+  · intro e he
+    simp only [List.mem_filter, decide_eq_true_eq, mem_drop_numberRepeated B x hx hxB,
+      mem_drop_numberRepeated B y hy hyB] at he
+    have c1 := count_take_add_drop x p (e / B)
+    have c2 := count_take_add_drop y q (e / B)
+    have k1 : e % B - max ((x.take p).count (e / B)) ((y.take q).count (e / B)) < b := by
+      have := hcx (e / B); omega
+    simp only [List.mem_filter, decide_eq_true_eq, mem_numberRepeated b _ hxs hxsb,
+      mem_numberRepeated b _ hys hysb, enc_div _ k1, enc_mod _ k1]
+    omega
+
+/-- SAFETY of `_filter_suffix` WITH the numbering step, on ascending lists with repetitions (bags): if the required
+    overlap is at most `|x| − |x − y|` (the size of the bag intersection) the pair is not dropped -/
+theorem suffixFilterSuffix_numbered_safe (f : FilterObj) (x y : List Nat) (hx : x.Pairwise (· ≤ ·))
+    (hy : y.Pairwise (· ≤ ·)) (p q : Nat) (hp : p ≤ x.length) (hq : q ≤ y.length) (b : Nat)
+    (hb : (x.drop p).length + (y.drop q).length < b)
+    (hthr : f.cfg.ovThr x.length y.length + ((x.diff y).length : Int) ≤ x.length) :
+    suffixFilterSuffix f (numberRepeated b (x.drop p)) (numberRepeated b (y.drop q)) p q x.length y.length = false := by
+  unfold suffixFilterSuffix
+  simp only
+  split
+  · rfl
+  · have hxs : (x.drop p).Pairwise (· ≤ ·) := hx.sublist (List.drop_sublist _ _)
+    have hys : (y.drop q).Pairwise (· ≤ ·) := hy.sublist (List.drop_sublist _ _)
+    have sx := numberRepeated_sorted b _ hxs (by omega)
+    have sy := numberRepeated_sorted b _ hys (by omega)
+    have l1 : ((x.length : Int) - p) = ((numberRepeated b (x.drop p)).length : Int) := by
+      rw [numberRepeated_length, List.length_drop]; omega
+    have l2 : ((y.length : Int) - q) = ((numberRepeated b (y.drop q)).length : Int) := by
+      rw [numberRepeated_length, List.length_drop]; omega
+    rw [l1, l2]
+    have hs := suffixEstHamming_sound 2 4 _ _ sx sy
+      ((x.length : Int) + y.length - 2 * f.cfg.ovThr x.length y.length + max (p : Int) (q : Int)) 1
+    -- the fully numbered lists
+    have SX := numberRepeated_sorted (x.length + y.length + 1) x hx (by omega)
+    have SY := numberRepeated_sorted (x.length + y.length + 1) y hy (by omega)
+    have h1 := hamming_suffix_le _ _ SX SY p q
+    have h2 := hamming_eq _ _ SX.nodup SY.nodup
+    have h3 := commonCount_numbered_ge (x.length + y.length + 1) x y hx hy (by omega) (by omega)
+    have h4 := commonCount_drop_numbered_le (x.length + y.length + 1) b x y hx hy (by omega) (by omega) p q hb
+    have h5 := hamming_eq _ _ sx.nodup sy.nodup
+    have h6 := hamming_eq _ _ (SX.nodup.sublist (List.drop_sublist p _)) (SY.nodup.sublist (List.drop_sublist q _))
+    simp only [numberRepeated_length, List.length_drop] at h2 h5 h6
+    rw [min_le_iff] at hs
+    rw [if_pos (by omega)]
+
+/-- for duplicate-free lists the bag difference is the set difference -/
+theorem length_diff_of_nodup (x y : List Nat) (hx : x.Nodup) : (x.diff y).length + commonCount x y = x.length := by
+  rw [hx.sdiff_eq_filter]
+  exact length_filter_mem_add x y
+
+theorem suffixFilterSuffixN_of_ne (f : FilterObj) (l r : List Nat) (lp rp : Int) (ln rn : Nat)
+    (h : f.cfg.measure ≠ .editDistance) :
+    suffixFilterSuffixN f l r lp rp ln rn = suffixFilterSuffix f l r lp rp ln rn := by
+  unfold suffixFilterSuffixN; rw [if_neg h]
+
+theorem suffixFilterSuffixN_of_ed (f : FilterObj) (l r : List Nat) (lp rp : Int) (ln rn : Nat)
+    (h : f.cfg.measure = .editDistance) :
+    suffixFilterSuffixN f l r lp rp ln rn =
+      suffixFilterSuffix f (numberRepeated (l.length + r.length + 1) l) (numberRepeated (l.length + r.length + 1) r)
+        lp rp ln rn := by
+  unfold suffixFilterSuffixN; rw [if_pos h]
+
+/-- SAFETY of `_filter_suffix` as called (numbering under EDIT_DISTANCE) on BAGS under EDIT_DISTANCE -/
+theorem suffixFilterSuffixN_safe_bag (f : FilterObj) (hm : f.cfg.measure = .editDistance)
+    (x y : List Nat) (hx : x.Pairwise (· ≤ ·)) (hy : y.Pairwise (· ≤ ·))
+    (lp rp : Int) (hlp : 0 ≤ lp) (hrp : 0 ≤ rp) (hlp' : lp ≤ x.length) (hrp' : rp ≤ y.length)
+    (hthr : f.cfg.ovThr x.length y.length + ((x.diff y).length : Int) ≤ x.length) :
+    suffixFilterSuffixN f (pyDrop x lp) (pyDrop y rp) lp rp x.length y.length = false := by
+  obtain ⟨a, rfl⟩ : ∃ a : Nat, lp = a := ⟨lp.toNat, by omega⟩
+  obtain ⟨b, rfl⟩ : ∃ b : Nat, rp = b := ⟨rp.toNat, by omega⟩
+  rw [pyDrop_nat, pyDrop_nat, suffixFilterSuffixN_of_ed f _ _ _ _ _ _ hm]
+  exact suffixFilterSuffix_numbered_safe f x y hx hy a b (by omega) (by omega) _ (by omega) hthr
+
+/-- SAFETY of `_filter_suffix` as called, on duplicate-free lists, any measure -/
+theorem suffixFilterSuffixN_safe (f : FilterObj) (x y : List Nat) (hx : x.Pairwise (· < ·)) (hy : y.Pairwise (· < ·))
+    (lp rp : Int) (hlp : 0 ≤ lp) (hrp : 0 ≤ rp) (hlp' : lp ≤ x.length) (hrp' : rp ≤ y.length)
+    (hthr : f.cfg.ovThr x.length y.length ≤ (commonCount x y : Int)) :
+    suffixFilterSuffixN f (pyDrop x lp) (pyDrop y rp) lp rp x.length y.length = false := by
+  by_cases hm : f.cfg.measure = .editDistance
+  · have := length_diff_of_nodup x y hx.nodup
+    exact suffixFilterSuffixN_safe_bag f hm x y (hx.imp Nat.le_of_lt) (hy.imp Nat.le_of_lt) lp rp hlp hrp hlp' hrp'
+      (by omega)
+  · rw [suffixFilterSuffixN_of_ne f _ _ _ _ _ _ hm]
+    exact suffixFilterSuffix_safe f x y hx hy lp rp hlp hrp hlp' hrp' hthr
+
+
+/-- the core of both entry points AS CALLED (with the numbering step under EDIT_DISTANCE): ordered token lists of two
+    token SETS under any ordering which knows all tokens of the pair and is injective; any measure -/
+theorem suffixFilterSuffixN_orderUsing (f : FilterObj) (a b : List Tok) (ord : List (Tok × Nat))
+    (ha : a.Nodup) (hb : b.Nodup)
+    (hka : ∀ t ∈ a, (Dict.get? ord t).isSome) (hkb : ∀ t ∈ b, (Dict.get? ord t).isSome)
+    (hinj : ∀ t1 t2 r, Dict.get? ord t1 = some r → Dict.get? ord t2 = some r → t1 = t2)
+    (hpa : 0 ≤ f.cfg.prefixLen a.length) (hpb : 0 ≤ f.cfg.prefixLen b.length)
+    (hpa' : f.cfg.prefixLen a.length ≤ a.length) (hpb' : f.cfg.prefixLen b.length ≤ b.length)
+    (hthr : f.cfg.ovThr a.length b.length ≤ (interCount a b : Int)) :
+    suffixFilterSuffixN f (pyDrop (orderUsing a ord) (f.cfg.prefixLen a.length))
+      (pyDrop (orderUsing b ord) (f.cfg.prefixLen b.length))
+      (f.cfg.prefixLen a.length) (f.cfg.prefixLen b.length) a.length b.length = false := by
+  have hinj' : ∀ (s : List Tok), ∀ t1 ∈ s, ∀ t2 ∈ s, ∀ r,
+      Dict.get? ord t1 = some r → Dict.get? ord t2 = some r → t1 = t2 := fun _ t1 _ t2 _ r => hinj t1 t2 r
+  have hxs := orderUsing_strict a ord ha (hinj' a)
+  have hys := orderUsing_strict b ord hb (hinj' b)
+  have hla := orderUsing_length a ord hka
+  have hlb := orderUsing_length b ord hkb
+  have hcc : commonCount (orderUsing a ord) (orderUsing b ord) = interCount a b := by
+    rw [commonCount_eq_interCount _ _ hxs.nodup, interCount_orderUsing a b ord ha hb hka hkb (hinj' (a ++ b))]
+  have := suffixFilterSuffixN_safe f (orderUsing a ord) (orderUsing b ord) hxs hys
+    (f.cfg.prefixLen a.length) (f.cfg.prefixLen b.length) hpa hpb (by rw [hla]; exact hpa')
+    (by rw [hlb]; exact hpb') (by rw [hla, hlb, hcc]; exact hthr)
+  rw [hla, hlb] at this
+  exact this
+
 /-! ### 7. `filter_pair` -/
 
 theorem suffixFilterPair_missing (f : FilterObj) (tok : String → List Tok) (l r : Cell)
@@ -847,7 +1226,7 @@ theorem suffixFilterPair_safe (f : FilterObj) (tok : String → List Tok) (hnd :
   rw [if_neg (by simp [hl, hr])]
   simp only
   rw [if_neg (by simpa using hne), if_neg (by simp only [Bool.or_eq_true, decide_eq_true_eq]; omega)]
-  exact suffixFilterSuffix_orderUsing f _ _ _ (hnd _) (hnd _)
+  exact suffixFilterSuffixN_orderUsing f _ _ _ (hnd _) (hnd _)
     (genTokenOrdering_isSome _ _ (by simp)) (genTokenOrdering_isSome _ _ (by simp))
     (genTokenOrdering_inj _) (by omega) (by omega) hpa' hpb' hthr
 
@@ -865,7 +1244,7 @@ def suffixPairRows (f : FilterObj) (o : OutCfg) (ordering : List (Tok × Nat))
   if handleEmpty f && ln = 0 && rn = 0 then [outputRow o lRow rRow] else
   let rp := f.cfg.prefixLen rn
   if lp ≤ 0 || rp ≤ 0 then [] else
-  if !suffixFilterSuffix f lSuf (pyDrop or_ rp) lp rp ln rn then [outputRow o lRow rRow] else []
+  if !suffixFilterSuffixN f lSuf (pyDrop or_ rp) lp rp ln rn then [outputRow o lRow rRow] else []
 
 theorem suffixFilterTablesSplit_eq (f : FilterObj) (tok : String → List Tok) (o : OutCfg)
     (lAttr rAttr : Nat) (ltable rtable : List Row) :
@@ -919,7 +1298,7 @@ theorem suffixPairRows_safe (f : FilterObj) (o : OutCfg) (ord : List (Tok × Nat
     intro h1 h2
     exact hne ⟨h1.2, h2⟩)]
   rw [if_neg (by simp only [Bool.or_eq_true, decide_eq_true_eq]; omega)]
-  rw [suffixFilterSuffix_orderUsing f a b ord ha hb hka hkb hinj (by omega) (by omega) hpa' hpb' hthr]
+  rw [suffixFilterSuffixN_orderUsing f a b ord ha hb hka hkb hinj (by omega) (by omega) hpa' hpb' hthr]
   rfl
 
 theorem mem_suffixFilterTablesSplit (f : FilterObj) (tok : String → List Tok) (o : OutCfg)
